@@ -7,6 +7,7 @@ CONSTANTS
   MaxSubs = 1
   MaxTopics = 2
   MaxWriters = 2
+  MaxCfts = 1
   MaxReaders = 1
   TopicNames = {"A", "B"}
   MaxOps = 6
